@@ -290,6 +290,20 @@ def d2(cx: Cx, ob: Ob) -> None:
             else:
                 ob.violate(handler.qualname, where(handler, ev.line), f"the {fw} handler re-splits `{show(S[1][1])[:50]}` at `{show(S[2][0])[:30] if S[2] else ''}`; expected prefix + converter.delimiter + identifier split at converter.delimiter", detail="resplit-shape")
                 continue
+        elif op(a) == "item" and is_const(a[2], 0) and op(a[1]) == "call" and callee_name(a[1]) == "partition" and op(a[1][1]) == "attr" and op(b) == "call" and callee_name(b) == "removeprefix" and op(b[1]) == "attr" and b[1][1] == a[1][1][1] and len(b[2]) == 1:
+            # head = J.partition(d)[0], tail = J.removeprefix(head + d): the first-occurrence split again (d occurs in J)
+            S = a[1]
+            J = S[1][1]
+            cut = concat_parts(b[2][0])
+            dterm = ("attr", conv, "delimiter")
+            # converter.format_curie(p, i) is p + converter.delimiter + i (C01-D4 checks that join)
+            joined_ok = concat_parts(J) == [P, dterm, I] or J == ("call", ("attr", conv, "format_curie"), (P, I), ())
+            cut_ok = cut in ([a, dterm], [a, ("item", S, ("const", 1))])
+            if joined_ok and S[2] == (dterm,) and cut_ok:
+                resplit = True
+            else:
+                ob.violate(handler.qualname, where(handler, ev.line), f"the {fw} handler re-splits `{show(J)[:40]}` into `{show(a)[:30]}` / `{show(b)[:40]}`; expected the parts of prefix + converter.delimiter + identifier at the first delimiter", detail="resplit-shape")
+                continue
         elif op(a) == "item" and op(b) == "item" and a[1] == b[1] and is_const(a[2], 0) and is_const(b[2], 1):
             S = a[1]
             if op(S) == "call" and S[1] == ("func", f"{API}._split") and S[2]:
